@@ -12,6 +12,8 @@
   END       end(): a missing field errs unless its node is Null or a union whose Null lookup yields a null node, in
             which case the discriminant *from that lookup* is written; then buffered successors are spliced
   PRESENT   the struct and map presentations reach the same two functions (field_idx, serialize_record_value)
+  FIELDNAMES the record's name -> position table is built with duplicate detection (a repeated field name is an error
+           at freeze, never "last position wins")                                               (found F27)
 It does NOT decide equality of bytes across permutations.
 """
 from ..lib import *
